@@ -1439,6 +1439,14 @@ def memo_value_written(prog: Program, f: FuncInfo, stmt: ast.Assign, cache: str)
 
     def written(g: FuncInfo, name: str) -> bool:
         if not _written_through(g, name):
+            # handed to code that may write into it (anything but a reader the tables know): the entry may change behind the memo's back
+            for u in ast.walk(g.node):
+                if isinstance(u, ast.Name) and u.id == name and isinstance(u.ctx, ast.Load):
+                    par = getattr(u, "_parent", None)
+                    if isinstance(par, ast.keyword):
+                        par = getattr(par, "_parent", None)
+                    if isinstance(par, ast.Call) and u is not par.func and not _value_only_read(prog, g, u, 0):
+                        return True
             return False
         only_aug = not any(isinstance(x, (ast.Subscript, ast.Attribute)) and isinstance(x.ctx, (ast.Store, ast.Del)) and _root_name(x) == name for x in ast.walk(g.node)) and not any(
             isinstance(x, ast.Call) and isinstance(x.func, ast.Attribute) and isinstance(x.func.value, ast.Name) and x.func.value.id == name for x in ast.walk(g.node))
